@@ -31,7 +31,7 @@ static std::string b64_dec_sig(const char *api, const uint8_t *s, size_t len, lo
 static void b64_roundtrip_one(const uint8_t *x, size_t n) {
   C.states++;
   const std::string ref = ref_b64enc(x, n); const size_t E = ref.size();
-  const std::string si = show_in(x, n);
+  const ShowIn si(x, n);
   C.transitions++;
   if (b64::EncodeLength(n) != E) viol("base64-EncodeLength-differs-from-rfc4648", si);
   // --- Encode into caller buffer, capacity exact / exact-1 / 0
@@ -87,14 +87,14 @@ static void b64_roundtrip_one(const uint8_t *x, size_t n) {
     size_t off = pre ? 2 : 0;
     if (r != n || v.size() != off + n || (n && memcmp(v.data() + off, x, n) != 0) || (pre && (v[0] != 0xEE || v[1] != 0xEF)))
       viol("base64-roundtrip-content", si + " api=vector prefill=" + std::to_string(off) + " enc=" + ref + " ret=" + std::to_string(r) + " got=" + hexs(v.data(), v.size())); }
-  if (n >= 2) sample("base64 round trip " + si + " -> \"" + ref + "\" caps{exact,exact-1,0} all overloads");
+  if (interesting_sample(x, n)) sample_force("base64 round trip " + si + " -> \"" + ref + "\" caps{exact,exact-1,0} all overloads");
 }
 
 static void b64_hostile_one(const uint8_t *s, size_t len) {
   if (out_of_time()) return;
   C.states++;
   std::vector<uint8_t> want; const bool valid = ref_b64dec(s, len, want);
-  const std::string si = show_in(s, len);
+  const ShowIn si(s, len);
   Ex in(s, len);
   size_t DL; { Guard g("base64.DecodeLength", s, len); DL = b64::DecodeLength(in.c(), len);
     if (g.hit()) viol(generic_san_sig("base64-DecodeLength"), si + " " + Guard::desc()); }
@@ -127,14 +127,14 @@ static void b64_hostile_one(const uint8_t *s, size_t len) {
 }
 
 void sweep_b64_rt() { for_enc_inputs(b64_roundtrip_one); }
-// D_dec(base64) = all strings of length 0..2 over 0..255, length 3 over A40 [thorough: 0..255], length 4 over A20
-// [thorough: A40 = 2 560 000], + every truncation of the valid encodings of the patterned inputs of length 1..66 and
+// D_dec(base64) = all strings of length 0..3 over 0..255 (16 843 009), length 4 over A20 (160 000)
+// [thorough: over the 64-value alphabet A64 = 16 777 216], + every truncation of the valid encodings of the patterned inputs of length 1..66 and
 // every single-byte A20 substitution in encodings of <= 12 characters.
 void sweep_b64_dec() {
   std::vector<uint8_t> full = alphabet("FULL");
   for (size_t len = 0; len <= 2 && !g_capped; len++) for_all_strings(full, len, g_part, g_nparts, b64_hostile_one);
-  if (!g_capped) for_all_strings(alphabet(thorough() ? "FULL" : "A40"), 3, g_part, g_nparts, b64_hostile_one);
-  if (!g_capped) for_all_strings(alphabet(thorough() ? "A40" : "A20"), 4, g_part, g_nparts, b64_hostile_one);
+  if (!g_capped) for_all_strings(full, 3, g_part, g_nparts, b64_hostile_one);
+  if (!g_capped) for_all_strings(alphabet(thorough() ? "A64" : "A20"), 4, g_part, g_nparts, b64_hostile_one);
   for (size_t L = 1; L <= 66 && !g_capped; L++) { if ((int)(L % (size_t)g_nparts) != g_part) continue;
     for (int p = 0; p < kPatterns; p++) { std::vector<uint8_t> v = pattern(p, L); std::string enc = ref_b64enc(v.data(), L); for_derived(enc, b64_hostile_one);
       if (L == 5 && p == 2) sample("base64 hostile: every truncation / A20 substitution of \"" + enc + "\" and all strings of length<=4, caps{DecodeLength,-1,0,max}"); } }
